@@ -23,6 +23,21 @@ func (b *embeddedBackend) Close() error {
 	return nil
 }
 
+// maxConflictRetries bounds how often a read-modify-write command is re-run after ErrConflict.
+const maxConflictRetries = 128
+
+// update runs fn in a read-write transaction and re-runs it when the commit loses a conflict
+// against a concurrent writer, so that the command observes the winner's write.
+func (b *embeddedBackend) update(fn func(txn *NoKV.Txn) error) error {
+	var err error
+	for attempt := 0; attempt < maxConflictRetries; attempt++ {
+		if err = b.db.Update(fn); !errors.Is(err, utils.ErrConflict) {
+			return err
+		}
+	}
+	return err
+}
+
 func (b *embeddedBackend) Get(key []byte) (*redisValue, error) {
 	entry, err := b.db.Get(key)
 	if err != nil {
@@ -50,7 +65,7 @@ func (b *embeddedBackend) Set(args setArgs) (bool, error) {
 	if args.NX || args.XX {
 		// Guard the condition check and write inside a single transaction to keep the
 		// Redis semantics (read + write must be atomic).
-		err := b.db.Update(func(txn *NoKV.Txn) error {
+		err := b.update(func(txn *NoKV.Txn) error {
 			exists := false
 			item, err := txn.Get(args.Key)
 			switch {
@@ -217,7 +232,7 @@ func (b *embeddedBackend) Exists(keys [][]byte) (int64, error) {
 
 func (b *embeddedBackend) IncrBy(key []byte, delta int64) (int64, error) {
 	var result int64
-	err := b.db.Update(func(txn *NoKV.Txn) error {
+	err := b.update(func(txn *NoKV.Txn) error {
 		var (
 			current  int64
 			expires  uint64
